@@ -84,8 +84,35 @@ Theorem c08_paren_nesting_refuted :
 Proof. exact paren_nesting_refuted. Qed.
 Print Assumptions c08_paren_nesting_refuted.
 
+(** Pathname expansion over an arbitrary directory oracle [ls]/[ex] (any listing order). *)
+Theorem c08_dotfile_policy : forall ls ex ext ci dotglob comps r,
+  In r (walk ls ex ext ci dotglob comps [[]]) -> Forall2 (dot_rule dotglob) comps r.
+Proof. exact dotfile_policy. Qed.
+Print Assumptions c08_dotfile_policy.
+
+Theorem c08_sort_flag : expand_sorts_per_dir || expand_sorts_results = true.
+Proof. exact sort_flag. Qed.
+Print Assumptions c08_sort_flag.
+
+Theorem c08_expand_sorted_single : forall ls ex ext ci dotglob c, requires_expansion ext c = true ->
+  sorted_strs (expand ls ex ext ci dotglob [c]).
+Proof. exact (fun ls ex ext ci dotglob c H => expand_sorted_single ls ex ext ci dotglob c H sort_flag). Qed.
+Print Assumptions c08_expand_sorted_single.
+
+Theorem c08_expand_sorted_all : forall ls ex ext ci dotglob comps, expand_sorts_results = true ->
+  sorted_strs (expand ls ex ext ci dotglob comps).
+Proof. exact expand_sorted_all. Qed.
+Print Assumptions c08_expand_sorted_all.
+
+Theorem c08_multilevel_sort_refuted : expand_sorts_results = false -> expand_sorts_per_dir = true ->
+  exists names p,
+    expand_model true false false names p <> Some (expand_spec_words true false false names p) /\
+    ~ sorted_strs (match expand_model true false false names p with Some l => l | None => [] end).
+Proof. exact multilevel_sort_refuted. Qed.
+Print Assumptions c08_multilevel_sort_refuted.
+
 (** Non-vacuity of the hypotheses. *)
 Theorem c08_nonvacuous : okb ex_pat = true /\ ex_pat <> GNil /\
-  glob_match false ex_pat (Codec.lit "aqzexyyy*") = true /\ glob_match false ex_pat (Codec.lit "aqzcx*") = false.
+  glob_match false ex_pat ex_yes = true /\ glob_match false ex_pat ex_no = false.
 Proof. exact ex_pat_ok. Qed.
 Print Assumptions c08_nonvacuous.
